@@ -46,7 +46,7 @@ Next == /\ Len(objs) < MaxObjs
                                    \/ \E s \in 1..Len(objs) : Bear(s, own) \/ (objs[s].rk = "obj" /\ Bro(s, own)) \/ BroRoot(s, own)
            \/ NewEmpty(0, "lit", 0)
            \/ \E s \in 1..Len(objs) : NewEmpty(s, "bear", s) \/ (objs[s].rk = "obj" /\ NewEmpty(objs[s].proto, "bro", s))
-           \/ (objs = <<>> /\ \E kind \in {"int", "str", "arr"} : NewRoot(kind))
+           \/ (objs = <<>> /\ \E kind \in {"int", "str", "arr", "nil"} : NewRoot(kind))
            \/ \E s1, s2 \in 1..Len(objs) : s1 # s2 /\ objs[s1].rk = "obj" /\ objs[s2].rk = "obj" /\ Noise(s1, s2)
 Spec == Init /\ [][Next]_<<objs, noise>>
 
